@@ -42,6 +42,8 @@ FIRST_MISSED = {
     "C11-4": "no check reported it -> SIDFRESH: after the closer, no return and no Refresh before the old connection is forgotten",
     "C15-3": "no check reported it -> RDC-2: the payload is taken out of a message struct created anew for every receive",
     "C15-4": "own property silent (reported by C16 FLUSH) -> C15 RDC-3 shares the WriteMessage nothing-pending guard",
+    "C16-4": "own property silent (reported by C15/C05 RDC-3) -> C16 re-checks the accounting of NoiseConn.Write",
+    "C17-4": "no check reported it -> SIDFRESH: SetRemote keeps the key only when it reports success (shared by C11 and C17)",
     "C06-3": "no check reported it -> RATELIMIT: once lastResend is refreshed the packets are transmitted",
 }
 
